@@ -17,11 +17,13 @@ package valuenotifier
 /*@
 global live IntArr       -- entry -> listeners created on it that have not deregistered yet (ghost)
 global cur Int           -- the entry on whose behalf the running deregistration acts (ghost)
+global keyOf (Array Int Str)   -- entry -> the value it was created for (ghost; contracts are instantiated for T = string)
 
 type Notifier
   monitor mutex level 4 guards
   invariant self.listeners != nil && self.listeners.m != nil && self.listeners.opts != nil && unlocked(self.listeners.mutex)
   invariant forall k T :: has(self.listeners.m, k) ==> self.listeners.m[k] != nil && self.listeners.m[k].count >= 1 && self.listeners.m[k].count == sel(live, self.listeners.m[k]) && self.listeners.m[k].channel != nil && !closed(self.listeners.m[k].channel)
+  invariant forall k T :: has(self.listeners.m, k) ==> sel(keyOf, self.listeners.m[k]) == k
   invariant forall k1 T, k2 T :: has(self.listeners.m, k1) && has(self.listeners.m, k2) && k1 != k2 ==> self.listeners.m[k1] != self.listeners.m[k2] && self.listeners.m[k1].channel != self.listeners.m[k2].channel
 
 func New
@@ -37,32 +39,34 @@ func Notifier.Listener
   opt sequential
   opt assume-no-overflow          -- fewer than 2^63 listeners per value
   requires v != nil && inv(v) && unlocked(v.mutex)
-  modifies ghost(live), listener.count, listener.channel, map(v.listeners.m)
+  modifies ghost(live), ghost(keyOf), listener.count, listener.channel, map(v.listeners.m)
   ghost before call newListener #1: live = upd(live, valueListener, sel(live, valueListener) + 1)
-  ghost after call ShrinkingMap.Set: live = upd(live, v.listeners.m[value], 1)
+  ghost after call ShrinkingMap.Set: live = upd(live, valueListener, 1)
+  ghost after call ShrinkingMap.Set: keyOf = upd(keyOf, valueListener, value)
   ensures inv(v) && unlocked(v.mutex) && r0 != nil
   ensures has(v.listeners.m, value) && r0.channel == v.listeners.m[value].channel
 
 func Notifier.removeListener
   instantiate T: string
   opt sequential
-  requires v != nil && inv(v) && unlocked(v.mutex) && sel(live, cur) >= 1
+  requires v != nil && inv(v) && unlocked(v.mutex) && cur == registeredListeners && sel(live, cur) >= 1 && sel(keyOf, cur) == value
   modifies ghost(live), listener.count, v.listeners.m, v.listeners.deletedKeys, map(v.listeners.m), chans
   ghost after acquire: live = upd(live, cur, sel(live, cur) - 1)
   ensures inv(v) && unlocked(v.mutex)
 
 -- the deregister closures: run at most once per listener (Listener.Deregister), for a listener that is still live
+-- (live of its entry >= 1: assumed, it is what "at most once per listener" means); they act on the entry they captured
 func Notifier.Listener$1
   instantiate T: string
-  requires v != nil && *v != nil && value != nil && inv(*v) && unlocked((*v).mutex)
+  requires v != nil && *v != nil && value != nil && inv(*v) && unlocked((*v).mutex) && valueListener != nil && sel(live, *valueListener) >= 1 && sel(keyOf, *valueListener) == *value
   modifies ghost(live), ghost(cur), listener.count, (*v).listeners.m, (*v).listeners.deletedKeys, map((*v).listeners.m), chans
-  ghost at entry: choose cur with sel(live, cur) >= 1
+  ghost at entry: cur = *valueListener
   ensures inv(*v)
 func Notifier.Listener$2
   instantiate T: string
-  requires v != nil && *v != nil && value != nil && inv(*v) && unlocked((*v).mutex)
+  requires v != nil && *v != nil && value != nil && inv(*v) && unlocked((*v).mutex) && valueListener != nil && sel(live, *valueListener) >= 1 && sel(keyOf, *valueListener) == *value
   modifies ghost(live), ghost(cur), listener.count, (*v).listeners.m, (*v).listeners.deletedKeys, map((*v).listeners.m), chans
-  ghost at entry: choose cur with sel(live, cur) >= 1
+  ghost at entry: cur = *valueListener
   ensures inv(*v)
 
 -- closes the entry's channel (the only legitimate wake-up) and forgets the entry
